@@ -629,7 +629,6 @@ class IH5Record(IH5Group):
 
         self._fixes_after_merge(cfile, ub)  # for subclass hooks
 
-        self._set_ublock(-1, ub)
         ub.save(cfile)
         return cfile
 
